@@ -25,6 +25,8 @@ type thread struct {
 	fn      func()
 	steps   int
 	exiting bool
+	timerAt time.Duration // threads spawned by a timer (AfterFunc): when it fired
+	isTimer bool
 }
 
 // Sched is one managed execution.
@@ -50,6 +52,10 @@ type Sched struct {
 	// returning): it lets the caller read what the threads recorded without that being a race,
 	// and cannot hide a race between threads because nothing runs after it.
 	join sync.WaitGroup
+	// closed records the channels closed through Close (a receive from a closed channel never blocks)
+	// (a fixed array scanned by //go:norace code: a map would be accessed through instrumented runtime code)
+	closed  [64]uintptr
+	nclosed int
 }
 
 // AdvanceTo moves the virtual clock forward and fires every timer that is due.
@@ -217,6 +223,12 @@ func (s *Sched) dispatch(from *thread) {
 				if tm := s.nextTimer(); tm != nil {
 					nt = tm.at
 				}
+				// a timer whose function (AfterFunc) has not finished yet still counts as pending
+				for _, tt := range s.threads {
+					if tt.isTimer && !tt.done && (nt < 0 || tt.timerAt < nt) {
+						nt = tt.timerAt
+					}
+				}
 				s.OnBlocked(t.name, t.what, s.clock, nt)
 			}
 		}
@@ -342,10 +354,35 @@ type chanWait struct {
 //go:norace
 func (c *chanWait) Ready() bool {
 	v := reflect.ValueOf(c.ch)
+	if s := Active; s != nil && s.isClosed(v.Pointer()) {
+		return true // receive: returns the zero value; send: panics, as it would without the scheduler
+	}
 	if c.send {
 		return v.Len() < v.Cap()
 	}
 	return v.Len() > 0
+}
+
+// Close is `close(ch)`: it never blocks; the channel is remembered as closed so that receives
+// from it are known to be enabled.
+//
+//go:norace
+func Close[T any](ch chan T) {
+	if s := Active; s != nil && s.nclosed < len(s.closed) {
+		s.closed[s.nclosed] = reflect.ValueOf(ch).Pointer()
+		s.nclosed++
+	}
+	close(ch)
+}
+
+//go:norace
+func (s *Sched) isClosed(p uintptr) bool {
+	for i := 0; i < s.nclosed; i++ {
+		if s.closed[i] == p {
+			return true
+		}
+	}
+	return false
 }
 
 // Recv is `<-ch`.
@@ -455,6 +492,7 @@ type Timer struct {
 	pending bool
 	s       *Sched
 	real    *time.Timer
+	fn      func() // AfterFunc: runs as a thread of its own when the timer fires
 }
 
 //go:norace
@@ -471,6 +509,18 @@ func (s *Sched) nextTimer() *Timer {
 //go:norace
 func (t *Timer) fire() {
 	t.pending = false
+	if t.fn != nil {
+		// time.AfterFunc runs the function in its own goroutine: here a new scheduler thread,
+		// enabled from now on
+		s := t.s
+		th := &thread{id: len(s.threads), name: fmt.Sprintf("timer%d", len(s.threads)), bt: newBaton(), fn: t.fn, isTimer: true, timerAt: t.at}
+		th.wait = Always
+		th.what = "start"
+		s.threads = append(s.threads, th)
+		s.join.Add(1)
+		go s.threadMain(th)
+		return
+	}
 	select {
 	case t.C <- Base.Add(t.at):
 	default:
@@ -494,6 +544,19 @@ func NewTimer(d time.Duration) *Timer {
 		return t
 	}
 	t := &Timer{C: make(chan time.Time, 1), at: s.clock + d, pending: true, s: s}
+	s.timers = append(s.timers, t)
+	return t
+}
+
+// AfterFunc is time.AfterFunc.
+//
+//go:norace
+func AfterFunc(d time.Duration, f func()) *Timer {
+	s := Active
+	if s == nil || s.cur == nil {
+		return &Timer{real: time.AfterFunc(d, f)}
+	}
+	t := &Timer{at: s.clock + d, pending: true, s: s, fn: f}
 	s.timers = append(s.timers, t)
 	return t
 }
